@@ -17,7 +17,9 @@ import (
 func algorithmHasher(i ipmi.IntegrityAlgorithm, g AdditionalKeyMaterialGenerator) (hash.Hash, error) {
 	switch i {
 	case ipmi.IntegrityAlgorithmNone:
-		return nil, nil
+		// sessions without integrity are not implemented: every packet would
+		// be sent flagged authenticated with an empty AuthCode
+		return nil, fmt.Errorf("unsupported integrity algorithm: %v", i)
 	case ipmi.IntegrityAlgorithmHMACSHA196:
 		return &truncatedHash{
 			Hash:   hmac.New(sha1.New, g.K(1)),
